@@ -196,6 +196,7 @@ where
     // every third.  Such items carry no number; they are told apart by position (the subscriber must yield
     // exactly as many items as were accepted, each equal to the one sent in that place).
     let empties: u64 = if run % 6 == 4 && !burst && Item::empty().is_some() { if run % 12 == 4 { 1 } else { 3 } } else { 0 };
+    let slow_feeds = elapses && size > 0 && !burst && (run / 2) % 2 == 0;
     if empties > 0 {
         log.emit("payloads", json!({"empty": if empties == 1 { "all" } else { "all_but_every_third" }}));
     }
@@ -274,7 +275,10 @@ where
         }
     }
     if size > 0 {
-        let interval = if elapses { Duration::from_millis(1) } else { Duration::from_secs(3600) };
+        // "the interval elapses between operations": 1 ms with a 4 ms pause before every operation, or -- every
+        // other such case -- 30 ms with the pauses *inside* every second feed (between poll_ready and start_send),
+        // so that items sit in the batch when the interval runs out under the caller's hands
+        let interval = if elapses { Duration::from_millis(if slow_feeds { 30 } else { 1 }) } else { Duration::from_secs(3600) };
         // the configuration is a record: how it was put together (constructor, presets, setters in either
         // order) must not matter
         let cfg = match run % 4 {
@@ -375,7 +379,7 @@ where
             }
             log.emit("pub_oversize", json!({"i": i, "res": if r.is_ok() { "ok".to_string() } else { format!("err: {}", r.unwrap_err()) }}));
         }
-        if elapses {
+        if elapses && !slow_feeds {
             tokio::time::sleep(Duration::from_millis(4)).await;
         }
         match op.as_str() {
@@ -400,7 +404,7 @@ where
                             p.feed(item).await
                         }
                     }
-                } else if elapses && size > 0 && i % 2 == 0 {
+                } else if slow_feeds && i % 2 == 0 {
                     // feed() by hand, with the caller taking its time between being told "ready" and handing
                     // the item over (longer than the batching interval): the Sink contract allows that, and the
                     // item still belongs behind everything accepted before it
@@ -408,7 +412,7 @@ where
                     let mut pp = std::pin::Pin::new(&mut *p);
                     match futures::future::poll_fn(|cx| pp.as_mut().poll_ready(cx)).await {
                         Ok(()) => {
-                            tokio::time::sleep(Duration::from_millis(3)).await;
+                            tokio::time::sleep(Duration::from_millis(45)).await;
                             pp.as_mut().start_send(item)
                         }
                         Err(e) => Err(e),
